@@ -154,7 +154,16 @@ class Prov:
                         return self.local(pf, 0)
                     return ("item", "%s::{promoted#%s}" % (op["item"], op["promoted"]))
                 return ("item", op["item"])
-            return ("const", ck or "other", op.get("text", ""))
+            text = op.get("text", "")
+            if text.startswith("const "):
+                text = text[len("const "):]
+            if text.startswith('b"') and op.get("ty", "").startswith("&[u8;"):
+                try:
+                    import ast
+                    return ("const", "bytes", ast.literal_eval(text).decode("latin-1"))
+                except Exception:
+                    pass
+            return ("const", ck or "other", text)
         return ("unknown", op.get("text", k))
 
     def place(self, fn, pl, site=None):
@@ -650,3 +659,42 @@ def fmt(o, depth=0):
     if k == "upd":
         return "%s with {%s}" % (fmt(o[1], d), ", ".join("%s: %s" % (".".join(p), fmt(v, d)) for p, v in o[2]))
     return str(o)
+
+
+def root_param(o):
+    """the parameter a projection chain starts from (through fields, variants, payloads), or None"""
+    o = peel(o)
+    while o[0] in ("field", "variant", "ok", "err", "some", "index", "upd"):
+        o = peel(o[1])
+    return o if o[0] == "param" else None
+
+
+def is_param_field(o, pname, fname):
+    """o is `<pname>…​.fname` (possibly through enum variant downcasts)"""
+    o = peel(o)
+    if o[0] != "field" or o[2] != fname:
+        return False
+    r = root_param(o[1])
+    return r is not None and r[2] == pname
+
+
+def format_parts(prov, fn, o):
+    """for the origin of `format!(..)`: (template bytes as latin-1 str, [argument origins]) or None"""
+    o = peel(o)
+    if o[0] != "call" or o[1] != "std::fmt::format":
+        return None
+    a = peel(o[2][0])
+    if a[0] != "call" or not a[1].startswith("std::fmt::Arguments::new"):
+        return None
+    tpl = peel(a[2][0])
+    args = []
+    if len(a[2]) > 1:
+        arr = peel(a[2][1])
+        if arr[0] == "agg":
+            for _, v in arr[2]:
+                v = peel(v)
+                if v[0] == "call" and "fmt::rt::Argument::new_" in v[1]:
+                    args.append((v[1].rsplit("_", 1)[1], v[2][0]))
+    if tpl[0] == "const" and tpl[1] in ("bytes", "str"):
+        return tpl[2], args
+    return None
